@@ -31,23 +31,23 @@ theorem Alias.step_sep (s : Sys) (op : AOp) (h : Sep s) : Sep (step {} s op) ∧
   cases op with
   | add id p m =>
     simp only [step, cross, alloc, if_true, deref, vstep]
-    refine ⟨⟨?_, ?_, ?_⟩, ?_⟩
+    refine ⟨⟨?_, ?_, ?_⟩, ?_⟩ <;> try dsimp only
     · intro t ht
       simp only [List.mem_append, List.mem_singleton] at ht
       rcases ht with ht | rfl
       · have := hs t ht; omega
-      · simp; omega
+      · dsimp only; omega
     · intro c hcm
       simp only [List.mem_cons] at hcm
       rcases hcm with rfl | rfl | rfl | rfl | hcm <;> try omega
       have := hc c hcm; omega
     · intro t ht
       simp only [List.mem_append, List.mem_singleton] at ht
+      simp only [List.mem_cons, not_or]
       rcases ht with ht | rfl
       · have h1 := hs t ht; have h2 := hd t ht
-        simp only [List.mem_cons, not_or]
         refine ⟨⟨by omega, by omega, by omega, by omega, h2.1⟩, ⟨by omega, by omega, by omega, by omega, h2.2⟩⟩
-      · simp only [List.mem_cons, not_or]
+      · dsimp only
         refine ⟨⟨by omega, by omega, by omega, by omega, ?_⟩, ⟨by omega, by omega, by omega, by omega, ?_⟩⟩
         · intro hm; have := hc _ hm; omega
         · intro hm; have := hc _ hm; omega
@@ -56,21 +56,34 @@ theorem Alias.step_sep (s : Sys) (op : AOp) (h : Sep s) : Sep (step {} s op) ∧
       · apply List.map_congr_left
         intro t ht
         have := hs t ht
-        have e1 : ∀ k, t.pc ≠ s.next + k := by intro k; omega
-        have e2 : ∀ k, t.mc ≠ s.next + k := by intro k; omega
-        have a1 := e1 0; have a2 := e2 0
-        simp only [Nat.add_zero] at a1 a2
-        simp [a1, a2, e1, e2]
-      · simp
-        constructor <;> (repeat (first | rfl | (split <;> try omega)))
+        have a0 : t.pc ≠ s.next := by omega
+        have a1 : t.pc ≠ s.next + 1 := by omega
+        have a2 : t.pc ≠ s.next + 1 + 1 := by omega
+        have a3 : t.pc ≠ s.next + 1 + 1 + 1 := by omega
+        have a4 : t.pc ≠ s.next + 1 + 1 + 1 + 1 := by omega
+        have a5 : t.pc ≠ s.next + 1 + 1 + 1 + 1 + 1 := by omega
+        have b0 : t.mc ≠ s.next := by omega
+        have b1 : t.mc ≠ s.next + 1 := by omega
+        have b2 : t.mc ≠ s.next + 1 + 1 := by omega
+        have b3 : t.mc ≠ s.next + 1 + 1 + 1 := by omega
+        have b4 : t.mc ≠ s.next + 1 + 1 + 1 + 1 := by omega
+        have b5 : t.mc ≠ s.next + 1 + 1 + 1 + 1 + 1 := by omega
+        simp only [a0, a1, a2, a3, a4, a5, b0, b1, b2, b3, b4, b5, if_false]
+      · have c1 : s.next + 1 + 1 ≠ s.next + 1 + 1 + 1 + 1 + 1 := by omega
+        have c2 : s.next + 1 + 1 ≠ s.next + 1 + 1 + 1 + 1 := by omega
+        have c3 : s.next + 1 + 1 ≠ s.next + 1 + 1 + 1 := by omega
+        have c4 : s.next ≠ s.next + 1 := by omega
+        have c5 : s.next + 1 + 1 + 1 ≠ s.next + 1 + 1 + 1 + 1 + 1 := by omega
+        have c6 : s.next + 1 + 1 + 1 ≠ s.next + 1 + 1 + 1 + 1 := by omega
+        have c7 : s.next + 1 ≠ s.next + 1 + 1 := by omega
+        simp only [c1, c2, c3, c4, c5, c6, c7, if_false, if_true]
   | get id =>
     simp only [step]
     cases hf : s.store.find? (·.id == id) with
     | none => exact ⟨⟨hs, hc, hd⟩, by simp [vstep]⟩
     | some t =>
-      have ht := List.mem_of_find?_eq_some hf
       simp only [cross, alloc, if_true, deref, vstep]
-      refine ⟨⟨?_, ?_, ?_⟩, ?_⟩
+      refine ⟨⟨?_, ?_, ?_⟩, ?_⟩ <;> try dsimp only
       · intro u hu; have := hs u hu; omega
       · intro c hcm
         simp only [List.mem_cons] at hcm
@@ -87,15 +100,15 @@ theorem Alias.step_sep (s : Sys) (op : AOp) (h : Sep s) : Sep (step {} s op) ∧
         have e2 : u.mc ≠ s.next := by omega
         have e3 : u.pc ≠ s.next + 1 := by omega
         have e4 : u.mc ≠ s.next + 1 := by omega
-        simp [e1, e2, e3, e4]
+        simp only [e1, e2, e3, e4, if_false]
   | update id p =>
     simp only [step, cross, alloc, if_true, deref, vstep]
-    refine ⟨⟨?_, ?_, ?_⟩, ?_⟩
+    refine ⟨⟨?_, ?_, ?_⟩, ?_⟩ <;> try dsimp only
     · intro t ht
       simp only [List.mem_map] at ht
       obtain ⟨u, hu, rfl⟩ := ht
       have := hs u hu
-      split <;> simp <;> omega
+      split <;> (try dsimp only) <;> omega
     · intro c hcm
       simp only [List.mem_cons] at hcm
       rcases hcm with rfl | hcm <;> try omega
@@ -105,9 +118,9 @@ theorem Alias.step_sep (s : Sys) (op : AOp) (h : Sep s) : Sep (step {} s op) ∧
       obtain ⟨u, hu, rfl⟩ := ht
       have h1 := hs u hu; have h2 := hd u hu
       simp only [List.mem_cons, not_or]
-      split
-      · refine ⟨⟨by simp, ?_⟩, ⟨by simp; omega, h2.2⟩⟩
-        intro hm; have := hc _ hm; simp at this
+      split <;> try dsimp only
+      · refine ⟨⟨by omega, ?_⟩, ⟨by omega, h2.2⟩⟩
+        intro hm; have := hc _ hm; omega
       · exact ⟨⟨by omega, h2.1⟩, ⟨by omega, h2.2⟩⟩
     · simp only [List.map_map]
       apply List.map_congr_left
@@ -116,8 +129,12 @@ theorem Alias.step_sep (s : Sys) (op : AOp) (h : Sep s) : Sep (step {} s op) ∧
       have e1 : u.pc ≠ s.next := by omega
       have e2 : u.mc ≠ s.next := by omega
       have e3 : u.mc ≠ s.next + 1 := by omega
+      have e4 : u.pc ≠ s.next + 1 := by omega
+      have e5 : s.next ≠ s.next + 1 := by omega
       simp only [Function.comp]
-      split <;> simp [e1, e2, e3]
+      split
+      · dsimp only; simp only [if_true]
+      · rfl
   | scribble c v =>
     simp only [step]
     split
@@ -129,7 +146,7 @@ theorem Alias.step_sep (s : Sys) (op : AOp) (h : Sep s) : Sep (step {} s op) ∧
       have := hd t ht
       have e1 : t.pc ≠ c := fun e => this.1 (e ▸ hin)
       have e2 : t.mc ≠ c := fun e => this.2 (e ▸ hin)
-      simp [e1, e2]
+      simp only [e1, e2, if_false]
     · exact ⟨⟨hs, hc, hd⟩, by simp [vstep]⟩
 
 /-- C19_separation: with every crossing cloning, for every sequence of calls and client scribbles the
